@@ -423,12 +423,11 @@ def shards(tier, seed):
     for j in range(2):
         out.append({'name': f'rand{j}', 'what': 'rand', 'count': lim['nrand'] // 2,
                     'nq': lim['nq'], 'nlaws': lim['nlaws']})
-    JL = 6
-    for j in range(JL):
-        out.append({'name': f'large{j}', 'what': 'large', 'mod': JL, 'rem': j,
-                    'laws_small': 40 if tier == 'quick' else 150,
-                    'laws_huge': 10 if tier == 'quick' else 40})
-    return out
+    JL = 12
+    large = [{'name': f'large{j}', 'what': 'large', 'mod': JL, 'rem': j,
+              'laws_small': 40 if tier == 'quick' else 150,
+              'laws_huge': 10 if tier == 'quick' else 40} for j in range(JL)]
+    return large + out          # the long-running ones first
 
 
 def run_shard(spec, res):
